@@ -154,6 +154,23 @@ Theorem c12_behemoth_order_is_permutation : forall rm t parent i1 i2,
 Proof. exact parent_idx_perm. Qed.
 Print Assumptions c12_behemoth_order_is_permutation.
 
+(* "occur in the query" / "available in the query": the table the loop works on is the file's table
+   thinned to the query genes. Gene j of the thinned array is reference gene keep[j], where keep
+   lists (in reference order) exactly the reference genes whose name occurs in the query; it is
+   listed for a pair and a direction iff that reference gene is listed there in the file; the pairs
+   and their positions are untouched *)
+Theorem c12_thinning_sound : forall rm query,
+  let keep := keep_idx rm query in
+  rm_genes (thin_genes rm query) = map (fun i => nth i (rm_genes rm) 0%Z) keep /\
+  (forall i, In i keep <-> i < length (rm_genes rm) /\ In (nth i (rm_genes rm) 0%Z) query) /\
+  length (rm_pairs (thin_genes rm query)) = length (rm_pairs rm) /\
+  forall k e, nth_error (rm_pairs rm) k = Some e ->
+    exists e', nth_error (rm_pairs (thin_genes rm query)) k = Some e' /\ fst e' = fst e /\
+      (forall j, In j (fst (snd e')) <-> exists i, nth_error keep j = Some i /\ In i (fst (snd e))) /\
+      (forall j, In j (snd (snd e')) <-> exists i, nth_error keep j = Some i /\ In i (snd (snd e))).
+Proof. exact thinning_sound. Qed.
+Print Assumptions c12_thinning_sound.
+
 (* ---------------- non-vacuity: 4 genes, 2 pairs (the table of DESIGN B.3) ---------------- *)
 Definition ex_pd : list (list nat * list nat) := [([1], [0; 2]); ([0], [2; 3])].
 Example ex_both_ways : both_ways_free ex_pd = true.
@@ -194,3 +211,8 @@ Example ex_hypothesis_needed :
   option_map (fun st => (chosen st, covered (marks_of pd) (chosen st) 0, covered (marks_of pd) (genes 3) 0))
              (run 3 [0] (marks_of pd) 1 (start 3 [0] (marks_of pd) 1) [0]) = Some ([0], 1, 3).
 Proof. vm_compute. split; reflexivity. Qed.
+(* thinning: reference genes 10..14, query {13, 11, 99}: genes 1 and 3 are kept and renumbered 0, 1 *)
+Example ex_thin :
+  let rm := {| rm_genes := [10; 11; 12; 13; 14]%Z; rm_pairs := [((0, 1)%Z, ([1; 2], [3; 4]))] |} in
+  (keep_idx rm [13; 11; 99]%Z, rm_pairs (thin_genes rm [13; 11; 99]%Z)) = ([1; 3], [((0, 1)%Z, ([0], [1]))]).
+Proof. vm_compute. reflexivity. Qed.
